@@ -247,6 +247,53 @@ static void build_symm(Problem &p, long n, const std::string &fam, int var, Rng 
       for (long j = 0; j < k; ++j)
         if (i != j && a(perm[i], perm[j]) != 0.0) uncoupled = false;
     p.famok = uncoupled && (kind == 1 ? d.cwiseAbs().minCoeff() > 0.0 : dominance_margin(a) > 0.0);
+  } else if (fam == "ddtie") {
+    // strictly diagonally dominant, well separated diagonal EXCEPT for 2-3 exactly equal entries that are
+    // coupled to each other; everything else weakly coupled (dense decaying), so no state is isolated.
+    // var%4: 0 two equal smallest entries, 3 three equal smallest entries (with a one-vector start space
+    //   lambda = D_jj exactly and the tied partner has D_ii - lambda = 0 with r_i != 0),
+    // 1 tie across the boundary of the start space (states nstart-1 and nstart equal and coupled, the
+    //   start states mutually uncoupled -> exact tie also with the default initial guess),
+    // 2 tie among higher states
+    int kind = var % 4;
+    bool neg = (var / 4) % 2 == 1, shuffle = (var / 8) % 2 == 1;
+    double eps = pick3(0.01, 0.03, 0.003, (var / 16) % 3);
+    double ctie = pick3(0.05, 0.2, 0.01, (var / 48) % 3);
+    VectorXd d = diag_profile(n, (var / 2) % 2, r);
+    if (neg) {
+      VectorXd e(n);
+      for (long i = 0; i < n; ++i) e(i) = -(d(n - 1) + 1.0) + (d(i) - d(0));
+      d = e;
+    }
+    long k = std::max<long>(1, std::min<long>(nstart, n - 1));
+    std::vector<long> tied;
+    if (kind == 0) tied = {0, 1};
+    if (kind == 3) tied = {0, 1, 2};
+    if (kind == 1) tied = {k - 1, k};
+    if (kind == 2) tied = {n / 2, n / 2 + 1};
+    for (long t : tied)
+      if (t >= n) tied.clear();
+    for (size_t t = 1; t < tied.size(); ++t) d(tied[t]) = d(tied[0]);
+    MatrixXd c = eps * coupling(n, r, true);
+    if (kind == 1)
+      for (long i = 0; i < k; ++i)
+        for (long j = 0; j < k; ++j)
+          if (i != j) c(i, j) = 0.0;
+    for (size_t t = 0; t < tied.size(); ++t)
+      for (size_t u = t + 1; u < tied.size(); ++u) {
+        double v = ctie * (r.u() < 0.5 ? -1.0 : 1.0) * (0.5 + 0.5 * r.u());
+        c(tied[t], tied[u]) = v;
+        c(tied[u], tied[t]) = v;
+      }
+    double rowsum = 0;
+    for (long i = 0; i < n; ++i) rowsum = std::max(rowsum, c.row(i).cwiseAbs().sum());
+    double scale = 1.0;
+    if (rowsum > 0) scale = std::min(1.0, 0.45 * d.cwiseAbs().minCoeff() / rowsum);
+    std::vector<long> perm = permutation(n, r, shuffle);
+    a = MatrixXd::Zero(n, n);
+    for (long i = 0; i < n; ++i)
+      for (long j = 0; j < n; ++j) a(perm[i], perm[j]) = (i == j) ? d(i) : scale * c(i, j);
+    p.famok = dominance_margin(a) > 0.0;
   } else if (fam == "ddflat") {
     // strictly diagonally dominant, but the diagonal is (nearly) constant: the diagonal
     // preconditioner carries no information
@@ -577,7 +624,7 @@ int main() {
 
       std::string key = mode + "/" + fam + "/" + std::to_string(N) + "/" + std::to_string(var) + "/" + std::to_string(seed);
       const long nstart = sig > 0 ? sig : 2 * neigen;   // size of the solver's initial guess
-      if (fam == "ddsparse" || fam == "ddshared") key += "/" + std::to_string(nstart);
+      if (fam == "ddsparse" || fam == "ddshared" || fam == "ddtie") key += "/" + std::to_string(nstart);
       if (key != cached_key) {
         prob = build(mode, fam, N, int(var), seed, nstart);
         cached_key = key;
